@@ -94,6 +94,10 @@ type FuncContract struct {
 	Covers       string
 	NoLoops      bool
 	Sets         []GhostSet
+	Summary      []GhostSet
+	Proves       []*Clause
+	Token        *Expr
+	Defines      *Expr
 	CallsOnly    []string
 	HasCallsOnly bool
 }
@@ -211,16 +215,43 @@ func splitWord(s string) (string, string) {
 
 func (fc *FuncContract) addClause(word, rest string, ln int) error {
 	switch word {
-	case "requires", "ensures":
+	case "requires", "ensures", "proves":
 		c, err := parseClause(word, rest, ln)
 		if err != nil {
 			return err
 		}
-		if word == "requires" {
+		switch word {
+		case "requires":
 			fc.Requires = append(fc.Requires, c)
-		} else {
+		case "ensures":
 			fc.Ensures = append(fc.Ensures, c)
+		default:
+			// proves: checked on the function itself, not assumed by callers (callers see the summary)
+			c.Kind = "ensures"
+			fc.Proves = append(fc.Proves, c)
 		}
+	case "summary":
+		i := strings.Index(rest, "=")
+		if i < 0 {
+			return fmt.Errorf("summary @ghost = expr")
+		}
+		e, err := parseExpr(rest[i+1:])
+		if err != nil {
+			return err
+		}
+		fc.Summary = append(fc.Summary, GhostSet{Ghost: strings.TrimSpace(rest[:i]), Expr: e})
+	case "token":
+		e, err := parseExpr(rest)
+		if err != nil {
+			return err
+		}
+		fc.Token = e
+	case "defines":
+		e, err := parseExpr(rest)
+		if err != nil {
+			return err
+		}
+		fc.Defines = e
 	case "let":
 		i := strings.Index(rest, "=")
 		if i < 0 {
